@@ -78,7 +78,7 @@ CHECKS = {
          "Trusted: the harness's literal semantics (accept iff well-formed and -2^31 <= v <= 2^32-1; value v mod 2^32; lui 0..2^20-1). Values between the boundary points are not enumerated. Leading-zero decimals, negative lui operands and CSR numbers > 4095 get no verdict.",
          "DESIGN.md 3 C17"),
  "C18": ("bounded-exhaustive enumeration of (program x 16 CLI flag configurations) with format parsers; channel-agreement oracle against the library entry point",
-         "The 35 order-stress programs (incl. multi-file), one file per malformed line kind, the analysis-failure programs, tab-indented code and the program pool x all 16 combinations of --json/--compact/--no-color/--all-files of the rva binary plus RVParser::run: parsers for the compact line grammar, the pretty block grammar and the JSON shape extract (severity, title, file, line, columns); for equal file selection all channels must agree with the library; JSON must have exactly the documented keys and consistent raw offsets; titles non-empty; severity fixed per code; items sorted within a file; no escape sequences under --no-color; correct 'other files' counter; every pretty excerpt shows the item's line with the marker under the reported columns and of the reported length.",
+         "The 35 order-stress programs (incl. multi-file), one file per malformed line kind, the analysis-failure programs, tab-indented code and the program pool x all 16 combinations of --json/--compact/--no-color/--all-files of the rva binary plus RVParser::run: parsers for the compact line grammar, the pretty block grammar and the JSON shape extract (severity, title, file, line, columns); for equal file selection all channels must agree with the library; JSON must have exactly the documented keys and consistent raw offsets; titles non-empty; severity fixed per code; items sorted within a file; no escape sequences under --no-color; correct 'other files' counter; every pretty excerpt shows the item's line with the marker under the reported columns and of the reported length (padding in front of the marker repeats the tabs of the line above, so the screen column is the same for every tab width).",
          "Trusted: the three format parsers. JSON is compared with the all-files selection (it has no base-only selection). File-UUID order independence of the same outputs is decided under C10.",
          "DESIGN.md 3 C18"),
  "C19": ("bounded-exhaustive enumeration of dump values (all variants x boundary parameters, all pairs for injectivity) and of kernel-program dumps with single-fact perturbations",
